@@ -2,18 +2,22 @@ open Tpids
 open Vio
 (* C37 model driver: same case file as harness/h_tpids.c, same observation lines *)
 
+(* a token: an event of the history, the arming of a helper, or the collective *)
+type tok = Ev of event | Helper of int * z | SyncTok
+
 let parse_tok t =
-  if t = "S" then SyncAll
+  if t = "S" then SyncTok
   else begin
     let n = String.length t in
     let i = ref 0 in
     while !i < n && t.[!i] >= '0' && t.[!i] <= '9' do incr i done;
     let r = int_of_string (String.sub t 0 !i) in
     let a = z_of_int (int_of_string (String.sub t (!i + 1) (n - !i - 1))) in
-    let o = match t.[!i] with
-      | 'r' -> Reserve a | 'g' -> Register a | 'u' -> Unregister a | 'l' -> Lookup a
-      | _ -> failwith "bad token" in
-    At (nat_of_int r, o)
+    match t.[!i] with
+    | 'r' -> Ev (At (nat_of_int r, Reserve a)) | 'g' -> Ev (At (nat_of_int r, Register a))
+    | 'u' -> Ev (At (nat_of_int r, Unregister a)) | 'l' -> Ev (At (nat_of_int r, Lookup a))
+    | 'h' -> Helper (r, a)
+    | _ -> failwith "bad token"
   end
 
 let tok_of_event_res e x =
@@ -33,12 +37,26 @@ let run_sys line =
   | None -> "<bad case>"
   | Some c ->
     let n = int_of_string (String.trim (String.sub line 4 (c - 4))) in
-    let toks = words (String.sub line (c + 1) (String.length line - c - 1)) in
-    let h = List.map parse_tok toks in
+    let toks = List.map parse_tok (words (String.sub line (c + 1) (String.length line - c - 1))) in
+    (* the synchronisation is one critical section of the table's lock: a reservation by another thread of
+       the process that is attempted during the collective is ordered after it ("H:after") *)
+    let pending = Array.make n [] in
+    let evs = List.concat_map (function
+      | Ev e -> [(e, "")]
+      | Helper (r, p) -> (if r < n then pending.(r) <- pending.(r) @ [p]); []
+      | SyncTok ->
+        let l = ref [(SyncAll, "")] in
+        Array.iteri (fun r ps ->
+          List.iteri (fun k p ->
+            l := !l @ [(At (nat_of_int r, Reserve p), if k = 0 then " H:after" else "");
+                       (At (nat_of_int r, Register p), "")]) ps;
+          pending.(r) <- []) pending;
+        !l) toks in
+    let h = List.map fst evs in
     let (_, xs) = sys_run (sys_init (nat_of_int n)) h in
     let bufs = Array.init n (fun _ -> Buffer.create 64) in
     let dead = Array.make n false in
-    List.iter2 (fun e x ->
+    List.iter2 (fun (e, pre) x ->
       match e with
       | SyncAll -> Array.iteri (fun r b -> if not dead.(r) then Buffer.add_string b " S") bufs
       | At (r, _) ->
@@ -47,8 +65,8 @@ let run_sys line =
           (match tok_of_event_res e x with
            | None -> ()
            | Some s -> if not dead.(r) then begin
-               Buffer.add_string bufs.(r) (" " ^ s);
-               if s = "CRASH" then dead.(r) <- true end)) h xs;
+               Buffer.add_string bufs.(r) (pre ^ " " ^ s);
+               if s = "CRASH" then dead.(r) <- true end)) evs xs;
     String.concat " | " (Array.to_list (Array.mapi (fun r b -> Printf.sprintf "r%d:%s" r (Buffer.contents b)) bufs))
 
 let run_conc t k =
